@@ -422,6 +422,11 @@ where
 		let keychain = wallet.keychain(keychain_mask)?;
 		tx.kernel_excess = Some(slate.calc_excess(keychain.secp())?);
 	}
+	// An invoice is issued without a cutoff; the payer may have attached one, which the
+	// issuer's entry has to carry from here on so that it expires like the payer's
+	if is_invoiced && tx.ttl_cutoff_height.is_none() && slate.ttl_cutoff_height != 0 {
+		tx.ttl_cutoff_height = Some(slate.ttl_cutoff_height);
+	}
 
 	if let Some(ref p) = slate.clone().payment_proof {
 		let derivation_index = match context.payment_proof_derivation_index {
